@@ -95,6 +95,11 @@ fn build_layout(dir: &Path, tar: bool, rng: &mut Rng) -> Result<(std::path::Path
 	canary(&outer.join("secret2.txt.gz"), 1, rng)?;
 	canary(&outer.join("secret3.txt.br"), 2, rng)?;
 	canary(&outer.join("sibling").join("s.txt"), 0, rng)?;
+	// neighbours whose names merely *begin* with the root's name (a byte-prefix test would let them through)
+	std::fs::create_dir_all(outer.join("root-private")).map_err(|e| e.to_string())?;
+	canary(&outer.join("root-private").join("secret.txt"), 0, rng)?;
+	canary(&outer.join("root.bak"), 0, rng)?;
+	canary(&outer.join("rootkit.txt.gz"), 1, rng)?;
 	canary(&outer.join("index.html"), 0, rng)?;
 	canary(&dir.join("abs_canary.txt"), 0, rng)?;
 	canary(&dir.join("abs_canary2.txt.gz"), 1, rng)?;
@@ -256,7 +261,7 @@ fn run_case(cx: &CaseCtx, rep: &mut Report) {
 	}
 	// classic escapes ending in a canary name
 	for up in 1..=6 {
-		for name in ["secret.txt", "secret2.txt", "secret3.txt", "sibling/s.txt", "index.html", "outer/secret.txt", "releases/secret.txt"] {
+		for name in ["secret.txt", "secret2.txt", "secret3.txt", "sibling/s.txt", "index.html", "outer/secret.txt", "releases/secret.txt", "root-private/secret.txt", "root.bak"] {
 			let mut s: Vec<String> = vec!["..".to_string(); up];
 			s.extend(name.split('/').map(String::from));
 			seqs.push(s.clone());
@@ -278,7 +283,7 @@ fn run_case(cx: &CaseCtx, rep: &mut Report) {
 		}
 	}
 	// absolute components: //abs, ///abs, prefix//abs
-	for abs in [&layout.abs_canary, &layout.abs_canary_gz_only, &format!("{}/outer/secret.txt", dir.display()), &"/etc/hostname".to_string()] {
+	for abs in [&layout.abs_canary, &layout.abs_canary_gz_only, &format!("{}/outer/secret.txt", dir.display()), &"/etc/hostname".to_string(), &format!("{}/outer/root-private/secret.txt", dir.display()), &format!("{}/outer/root.bak", dir.display()), &format!("{}/outer/rootkit.txt", dir.display())] {
 		let segs: Vec<String> = abs.split('/').filter(|c| !c.is_empty()).map(String::from).collect();
 		for lead in ["//", "///", "/.//", "/a.txt//", "/sub///"] {
 			push(segs.clone(), lead, true, true, &mut targets);
